@@ -55,7 +55,7 @@ def call_path(I, res, prop, shape, policy):
     I.assume(z3.And(rv >= 0, rv <= 100))
     W = d.world(policy=policy)
     if shape != "missing":
-        deploy(d, W, CHILD if shape != "nested" else CHILD2)
+        deploy(d, W, CHILD if shape not in ("nested", "nested-missing") else CHILD2)
     if shape == "nested":
         deploy(d, W, GRAND)
     deploy(d, W, subst(parent(), {"a": a}))
@@ -67,6 +67,13 @@ def call_path(I, res, prop, shape, policy):
     pp = find_proc(W, "parent")
     P = Proc(W, pp[0], parent(), "P")
     call = [t for t in P.tasks() if t["nid"] == "call"][0]
+    if shape == "nested-missing":
+        # the inner call fails (no such model): the child errors, and that error must come back to the outer calling act
+        if call["state"] != "Error":
+            d.viol("nested-missing:outer-call=%s" % call["state"], "the child failed (its own call names an undeployed model) but the outer calling act is %s" % call["state"])
+        if not P.done():
+            d.viol("nested-missing:parent-hangs", "the child failed but the parent neither failed nor finished")
+        return
     if shape == "missing":
         if call["state"] != "Error":
             d.viol("missing-model:calling-act=%s" % call["state"], "the target model does not exist but the calling act is %s" % call["state"])
